@@ -300,8 +300,14 @@ def do_replay(drv, pid, path):
     drv.setup_worker("quick", 0)
     viols = drv.replay(rp.get("replay", rp))
     if viols:
+        open_mechs = {e["mech"]: e for e in load_ledger() if e.get("property") == pid and e.get("status") == "open"}
         for v in viols[:5]:
             print(f"replay: rule={v.get('rule')} mech={v.get('mech')} msg={str(v.get('msg'))[:500]}")
+        new = [v for v in viols if v.get("mech") not in open_mechs]
+        for m in sorted({v.get("mech") for v in viols if v.get("mech") in open_mechs}):
+            print(f"KNOWN-FINDING: property={pid} {open_mechs[m]['what_fails'][:300]} [mech={m}]")
+        if not new:
+            return 0
         print(f"VIOLATION property={pid} replay={path}")
         return 1
     print(f"replay: no violation for {path} on the current tree")
